@@ -42,6 +42,9 @@ let handle (req : Sx.t) : Sx.t =
   | L [A "rt_job_template"; j] -> sx_of_outcome sx_of_rt (rt_job_template classify (json_of_sx j))
   | L [A "rt_env_template"; j] -> sx_of_outcome sx_of_rt (rt_env_template classify (json_of_sx j))
   | L [A "rt_job"; v] -> sx_of_rt (rt_job classify (mval_of_sx v))
+  | L [A "create_verdict"; vals; t] ->
+    let vs = list_of_sx (function L [n; ty; v] -> ((str_of_sx n, str_of_sx ty), str_of_sx v) | _ -> failwith "vals") vals in
+    sx_of_outcome sx_of_bool (create_job_verdict classify vs (mval_of_sx t))
   | L [A "parse_job_ok"; j] -> sx_of_outcome sx_of_bool (parse_job_ok classify (json_of_sx j))
   | _ -> failwith "unknown-request"
 
